@@ -134,7 +134,56 @@ let run_wireout kvs ikvs =
     | _ -> "nil") prog in
   Printf.sprintf "errs=%s wirefnv=%s n=%d frames=%d judge=%s" (String.concat "," errs) (fnv mwire) (String.length mwire) (List.length st.w_out) verdict
 
+(* ---- suite wire-in ---- *)
+let err_str (e : rerr) = match e with
+  | RECloseErr (c, r) -> Printf.sprintf "close:%d:%s" (int_of_z c) (hexb r)
+  | REOther -> "other" | RETransEof -> "transporteof" | RETransFail -> "transportfail"
+  | RELimit -> "limit" | REClosed -> "closed" | REUsage -> "usage" | REBlocked -> "blocked"
+
+let debug = (try Sys.getenv "VERIF_DEBUG" <> "" with Not_found -> false)
+let dbg_data (d : n list) =
+  if debug then begin
+    let b = string_of_bytes d in
+    let n = String.length b in
+    let h = if n > 48 then String.sub b 0 48 else b and t = if n > 48 then String.sub b (n - 48) 48 else b in
+    Printf.eprintf "DEBUG model data len=%d head=%s tail=%s\n" n (hex h) (hex t)
+  end
+let obs_str (o : obs) = (match o with ObMsg (d, _) -> dbg_data d | _ -> ()); match o with
+  | ObReader (Inl t) -> Printf.sprintf "R:%d" (int_of_n t)
+  | ObReader (Inr e) -> "R:err=" ^ err_str e
+  | ObMsg (d, None) -> let b = string_of_bytes d in Printf.sprintf "M:%d:%s:eof" (String.length b) (fnv b)
+  | ObMsg (d, Some e) -> let b = string_of_bytes d in Printf.sprintf "M:%d:%s:err=%s" (String.length b) (fnv b) (err_str e)
+  | ObPartial d -> let b = string_of_bytes d in Printf.sprintf "P:%d:%s" (String.length b) (fnv b)
+
+let reply_str (r : reply) = match r with
+  | RpPong p -> "10:" ^ hexb p
+  | RpClose (c, Some reason) ->
+    let ci = int_of_z c in
+    if ci = 1005 then "8:-" else "8:" ^ hex (Printf.sprintf "%c%c" (Char.chr (ci lsr 8)) (Char.chr (ci land 255)) ^ string_of_bytes reason)
+  | RpClose (c, None) -> Printf.sprintf "8:code=%d" (int_of_z c)
+
+let parse_rops (ops : string) : rop list =
+  List.concat_map (fun op ->
+    if op = "" then [] else
+    if op = "R" then [OReader] else if op = "A" then [OReadAll]
+    else if op.[0] = 'a' then [OReadAllN (nat_of_int (int_of_string (String.sub op 1 (String.length op - 1))))]
+    else if op.[0] = 'r' then [ORead (nat_of_int (int_of_string (String.sub op 1 (String.length op - 1))))]
+    else if op.[0] = 'L' then [OSetLimit (z_of_int (int_of_string (String.sub op 1 (String.length op - 1))))]
+    else failwith ("bad read op " ^ op)) (String.split_on_char ',' ops)
+
+let run_wirein kvs _ =
+  let cfg = { rc_role = role_of (get kvs "role"); rc_co = co_of (get kvs "co") } in
+  let ops = parse_rops (get kvs "ops") in
+  let ops = match get_or kvs "limit" "default" with "default" -> ops | l -> OSetLimit (z_of_int (int_of_string l)) :: ops in
+  let e = match get_or kvs "end" "eof" with "fail" -> EFail | "open" -> EOpen | _ -> EEof in
+  let inq = bytes_of_string (payload (get kvs "stream")) in
+  let (obs, st) = run cfg inflate_oracle c_initialLimitStored inq e ops in
+  let reps = List.map reply_str st.r_replies in
+  let faildata = List.fold_left (fun acc o -> match o with ObMsg (d, Some _) -> hexb d | _ -> acc) "?" obs in
+  Printf.sprintf "obs=%s replies=%s faildata=%s" (String.concat "," (List.map obs_str obs)) (if reps = [] then "-" else String.concat "," reps) faildata
+
 let suites : (string * ((string * string) list -> (string * string) list -> string)) list = [
+  "wire-in", run_wirein;
   "mask", (fun kvs _ -> run_mask kvs);
   "wire-out", run_wireout;
 ]
